@@ -5,6 +5,9 @@ package main
 
 // ---- who may act as an agent (C17) ----
 //@ func checkBackendID props(C17,C07)
+//@   local oauthUser define 0 0 user . CurrentOAuth ( _ , "https://www.googleapis.com/auth/cloud-platform" )
+//@   local r param 0 2
+//@   local s param 0 1
 //@   requires s != nil && r != nil
 //@   assigns nothing
 //@   ghost asked bool = false
@@ -17,18 +20,25 @@ package main
 //@   ensures[C17:no-id-on-rejection] r1 != nil ==> r0 == ""
 
 //@ func parseResponse props(C17,C19,C07)
+//@   local backendID param 0 0
+//@   local r param 0 1
 //@   requires r != nil && r.Body != nil
 //@   assigns ghost rdPos, ghost rdCalls
 //@   ensures[C19:response-under-validated-backend-and-named-request] r1 == nil ==> r0 != nil && r0.BackendID == backendID && r0.RequestID == hget(r.Header, "X-Inverting-Proxy-Request-ID") && r0.RequestID != ""
 //@   ensures[C19:nil-on-error] r1 != nil ==> r0 == nil
 
 //@ func waitForNextRequests props(C17,C07)
+//@   local backendID param 0 2
+//@   local s param 0 1
 //@   requires s != nil
 //@   assigns nothing
 //@   call (types.Store).ListPendingRequests
 //@     assert[C17:list-only-the-given-backend] arg2 == backendID
 
 //@ func waitForResponse props(C19,C07)
+//@   local backendID param 0 2
+//@   local requestID param 0 3
+//@   local s param 0 1
 //@   requires s != nil
 //@   assigns nothing
 //@   call (types.Store).ReadResponse
@@ -36,6 +46,11 @@ package main
 //@   ensures[C19:non-empty-response-or-error] r1 == nil ==> len(r0) > 0
 
 //@ func postRequest props(C19,C07)
+//@   local backendID param 0 2
+//@   local requestBytes param 0 5
+//@   local requestID param 0 3
+//@   local s param 0 1
+//@   local userEmail param 0 4
 //@   requires s != nil
 //@   assigns nothing
 //@   call (types.Store).WriteRequest
@@ -45,6 +60,10 @@ package main
 // marks the request completed. Both store writes may fail and each failure is queued without anyone receiving yet,
 // so the error channel must have room for two values (otherwise the second sender blocks for ever).
 //@ func postResponse props(C19,C07)
+//@   local errChan param 0 3
+//@   local request define 0 0 _ . ReadRequest ( _ , _ , _ )
+//@   local response param 0 2
+//@   local s param 0 1
 //@   requires s != nil && response != nil && errChan != nil && !closed(errChan)
 //@   assigns response.StartTime
 //@   requires[errchan-has-room-for-both-writers] chcap(errChan) - chlen(errChan) >= 2
@@ -64,6 +83,9 @@ package main
 
 // ---- the three agent endpoints: nothing happens before the caller is validated, and everything happens under the validated id (C17, C19) ----
 //@ func pendingHandler props(C17,C07)
+//@   local r param 0 3
+//@   local s param 0 1
+//@   local w param 0 2
 //@   requires s != nil && w != nil && r != nil && rwWrites[w] == 0
 //@   ghost valid bool = false
 //@   ghost vid string = ""
@@ -81,6 +103,10 @@ package main
 
 //@ pure lastIs(h ref, k string, v string) bool = len(values(h, k)) >= 1 && values(h, k)[len(values(h, k)) - 1] == v
 //@ func requestHandler props(C17,C19,C07)
+//@   local r param 0 3
+//@   local request define 0 0 _ . ReadRequest ( _ , _ , _ )
+//@   local s param 0 1
+//@   local w param 0 2
 //@   requires s != nil && w != nil && r != nil && rwWrites[w] == 0
 //@   ghost valid bool = false
 //@   ghost vid string = ""
@@ -108,6 +134,10 @@ package main
 //@   ensures[C19:a-stored-request-that-was-read-is-served] readOK ==> served == 1
 
 //@ func responseHandler props(C17,C19,C07)
+//@   local r param 0 3
+//@   local response define 0 0 parseResponse ( _ , _ )
+//@   local s param 0 1
+//@   local w param 0 2
 //@   requires s != nil && w != nil && r != nil && r.Body != nil && rwWrites[w] == 0
 //@   ghost valid bool = false
 //@   ghost vid string = ""
@@ -131,6 +161,9 @@ package main
 //@   ensures[C19:a-parsed-upload-is-recorded] parsedOK ==> posts == 1
 
 //@ func handleAgentRequest props(C17,C07)
+//@   local r param 0 3
+//@   local s param 0 1
+//@   local w param 0 2
 //@   requires s != nil && w != nil && r != nil && r.URL != nil && r.Body != nil && rwWrites[w] == 0
 //@   ghost routed int = 0
 //@   call pendingHandler
@@ -160,6 +193,9 @@ package main
 //@   ensures[C17:admin-iff-appengine-or-oauth-admin] r0 <==> (isAdm || (oerr == nil && ou != nil && ou.Admin))
 
 //@ func handleAPIRequest props(C17,C07)
+//@   local r param 0 3
+//@   local s param 0 1
+//@   local w param 0 2
 //@   requires s != nil && w != nil && r != nil && r.URL != nil && r.Body != nil && rwWrites[w] == 0
 //@   ghost adminOK bool = false
 //@   ghost asked bool = false
@@ -184,6 +220,11 @@ package main
 
 // ---- the end-user side (C17, C18, C19) ----
 //@ func proxyHandler props(C17,C18,C19,C07)
+//@   local currentUser define 0 0 user . Current ( _ )
+//@   local r param 0 4
+//@   local requestID param 0 2
+//@   local s param 0 1
+//@   local w param 0 3
 //@   requires s != nil && w != nil && r != nil && r.URL != nil && rwWrites[w] == 0 && rwHeader[w] != nil && allocated0(rwHeader[w])
 //@   ghost looked bool = false
 //@   ghost lerr bool = false
@@ -240,6 +281,8 @@ package main
 
 // readCachedResponse / cacheResponse: one memcache item per key, parsed against the request in hand.
 //@ func readCachedResponse props(C19,C07)
+//@   local cacheKey param 0 1
+//@   local r param 0 2
 //@   requires r != nil
 //@   assigns nothing
 //@   ghost item *memcache.Item = nil
@@ -258,6 +301,8 @@ package main
 //@     assert[C19:cached-response-parsed-against-this-request] arg0 == bufr && arg1 == r
 //@   ensures[C19:cache-hit-yields-a-response] r1 == nil ==> r0 != nil && r0.Header != nil && fresh(r0.Header)
 //@ func cacheResponse props(C19,C07)
+//@   local cacheKey param 0 1
+//@   local responseBytes param 0 2
 //@   assigns nothing
 //@   call memcache.Set
 //@     assert[C19:cached-under-the-given-key-with-the-given-bytes] arg1 != nil && arg1.Key == cacheKey && arg1.Value == responseBytes
@@ -265,6 +310,8 @@ package main
 // forwardResponse: the client gets the status, every header field with the very value list, and the body reader of
 // the response handed in (C19: the served response is the stored one).
 //@ func forwardResponse props(C19,C07)
+//@   local response param 0 3
+//@   local w param 0 2
 //@   requires w != nil && response != nil && rwHeader[w] != nil && response.Header != asHeader(rwHeader[w])
 //@   ghost commits int = 0
 //@   call (http.ResponseWriter).WriteHeader
@@ -280,6 +327,9 @@ package main
 
 // ---- the entry point (C17, C19): one request, one handler class, decided by the App Engine module alone ----
 //@ func init#1$1 props(C17,C19,C07)
+//@   local r param 0 1
+//@   local s define 0 0 cache . NewCachingStore ( store . NewPersistentStore ( ) )
+//@   local w param 0 0
 //@   at ctx := appengine.NewContext(r)
 //@   requires w != nil && r != nil && r.URL != nil && r.Body != nil && s != nil && rwWrites[w] == 0 && rwHeader[w] != nil && allocated0(rwHeader[w])
 //@   ghost routed int = 0
@@ -305,8 +355,10 @@ package main
 //@     do routed = routed + 1
 //@   ensures[C17:every-request-is-routed-once] routed == 1
 //@ func isAgentRequest props(C17,C07)
+//@   local ctx param 0 0
 //@   assigns nothing
 //@   ensures[C17:agent-requests-are-those-of-the-agent-module] r0 <==> moduleOf(ctx) == "agent"
 //@ func isAPIRequest props(C17,C07)
+//@   local ctx param 0 0
 //@   assigns nothing
 //@   ensures[C17:api-requests-are-those-of-the-api-module] r0 <==> moduleOf(ctx) == "api"
